@@ -481,6 +481,11 @@ def exactScalar : FieldDecl → Bool
   | .enumCls _ names => !names.isEmpty
   | _ => false
 
+/-- an unconstrained `String()` key -/
+def exactKey : FieldDecl → Bool
+  | .string none none none => true
+  | _ => false
+
 /-- an `AnyOf` (in particular `Optional[X]`): not allowed as a direct element of an exact `Array` / `Tuple` -/
 def isOptionalF : FieldDecl → Bool
   | .anyOf _ => true
@@ -489,7 +494,8 @@ def isOptionalF : FieldDecl → Bool
 mutual
 /-- the exact fragment at field level: exact scalars, homogeneous `Array[X]` / `Tuple[X]` (no
     `uniqueItems`, any size bounds) over it, `Optional[X]` (as a class member or inside another
-    Optional-free position, not as a direct array element), and nested Structure classes (by `$ref`; no defaults, the
+    Optional-free position, not as a direct array element), `Map[String, X]` with an unconstrained key and
+    no size bounds, and nested Structure classes (by `$ref`; no defaults, the
     class accepts its own instances, required fields declared) whose fields are in it — at any depth.
     Positional items, sized or key-constrained Maps are NOT exact (findings exact:positional-shorter,
     exact:map-size, exact:map-key-constraint) -/
@@ -497,6 +503,7 @@ def exactF : FieldDecl → Bool
   | .seqOf k f sz => k == .list && !sz.uniq && !isOptionalF f && exactF f
   | .tupleOf f u => !u && !isOptionalF f && exactF f
   | .anyOf fs => exactOpt fs
+  | .mapOf k vf sz => exactKey k && sz.min.isNone && sz.max.isNone && !isOptionalF vf && exactF vf
   | .struct c fields defaults =>
     !c.inline && defaults.isEmpty && c.accepts.contains c.name && nodupS (fields.map (·.1))
     && c.required.all (fields.map (·.1)).contains && exactFields fields
